@@ -108,8 +108,8 @@ manifest = {
     "engines": [
         {"name": "dmcheck", "path": "engine/dmcheck", "serves_properties": sorted(CLAIMED),
          "kind_free_text": "property-based testing engine: proptest strategies sharded over 16 threads, enumerated sub-domains, shrinking to replay files, class histograms in evidence"},
-        {"name": "dmfuzz", "path": "engine/fuzz", "serves_properties": ["C01", "C02", "C03", "C04", "C05", "C08", "C09", "C10", "C11", "C12", "C13", "C14", "C16", "C17", "C18", "C19"],
-         "kind_free_text": "cargo-fuzz / libFuzzer targets (enc, stream, rs, bitmap, script) that decode bytes into the same case structs and call the same property functions; thorough tier runs a campaign per property, both tiers replay the committed corpus /verif/corpus/<target>"},
+        {"name": "dmfuzz", "path": "engine/fuzz", "serves_properties": sorted(CLAIMED),
+         "kind_free_text": "cargo-fuzz / libFuzzer targets (enc, stream, rs, bitmap, script; built with overflow checks and debug assertions, without ASan because the crate has no unsafe code) that decode bytes into the same case structs and call the same property functions; thorough tier runs a campaign per property, both tiers replay the committed corpus /verif/corpus/<target>"},
         {"name": "refimpl", "path": "engine/refimpl", "serves_properties": sorted(CLAIMED),
          "kind_free_text": "independent oracles written from ISO/IEC 16022 / 21471: data codec, GF(256)/RS, Annex F placement, symbol table, rasteriser, charsets"},
     ],
@@ -117,8 +117,13 @@ manifest = {
     "not_applicable": [],
     "notes": "exit codes: 0 held, 1 VIOLATION, 2 inconclusive (watchdog/tooling/oracle self-check). Seeds: VERIF_SEED. Replay: bin/replay <ID> <file>. Known findings: known_findings.json.",
 }
+FUZZ = {"C01": "enc", "C02": "enc", "C03": "rs", "C04": "script", "C05": "stream, rs, bitmap", "C06": "rs", "C07": "bitmap", "C08": "bitmap", "C09": "rs", "C10": "enc",
+        "C11": "enc", "C12": "enc", "C13": "enc", "C14": "enc", "C15": "stream", "C16": "enc", "C17": "bitmap", "C18": "enc", "C19": "enc"}
 for pid in sorted(CHECKS):
     tech, text, note, ref = CHECKS[pid]
+    tech = tech.replace("; coverage-guided libFuzzer stage in thorough", "").replace("; libFuzzer stage in thorough", "")
+    tech += "; committed libFuzzer corpus (target %s) replayed through the same oracle in both tiers, coverage-guided libFuzzer campaign with the oracle inside the target in the thorough tier" % FUZZ[pid]
+    note += " Resource limits: 60 s per case, 10 GB RSS, 24 GiB address space; exceeding them is exit 2 (inconclusive)" + (", for this property exit 1 only after an isolated re-run exceeds them again." if pid in ("C05", "C11") else ".")
     if pid in CLAIMED:
         manifest["checks"].append({
             "property_id": pid,
